@@ -50,10 +50,83 @@ class Ctx:
         return self.get('types', lambda: typefacts.TypeFacts(self.root))
 
 
+def _rule_statement(st) -> str | None:
+    """The variable a top-level statement of run() binds to `report.rule(...)`, else None."""
+    import ast
+    if isinstance(st, ast.Assign) and len(st.targets) == 1 and isinstance(st.targets[0], ast.Name) and isinstance(st.value, ast.Call) \
+            and isinstance(st.value.func, ast.Attribute) and st.value.func.attr == 'rule' \
+            and isinstance(st.value.func.value, ast.Name) and st.value.func.value.id == 'report':
+        return st.targets[0].id
+    return None
+
+
 def run_property(pid: str, ctx: Ctx) -> core.Report:
-    mod = importlib.import_module(f'sa.props.{pid.lower()}')
-    report = core.Report(pid)
-    mod.run(ctx, report)
+    """Run the rule pack of a property.
+
+    A rule whose anchors are gone on the tree under analysis (the function it interprets was renamed, merged, re-signatured or moved;
+    a construct outside the evaluator) cannot give a verdict.  If that happened to the whole pack the run is an ANALYSIS-ERROR.  If
+    other rules of the pack - in particular the tables that only need the public API - can still be evaluated, the rule is reported
+    as SKIPPED-RULE with the reason and the pack goes on: the section of run() that belongs to the rule (from its `report.rule(...)`
+    statement to the next one) is left out and the pack is executed again.  Nothing is skipped on a tree where every anchor exists."""
+    import ast
+    import types
+    modname = f'sa.props.{pid.lower()}'
+    path = os.path.join(os.path.dirname(os.path.abspath(__file__)), 'props', f'{pid.lower()}.py')
+    tree = ast.parse(open(path).read(), path)
+    run_fn = next(n for n in tree.body if isinstance(n, ast.FunctionDef) and n.name == 'run')
+    skipped: list[tuple[str, str]] = []
+    for attempt in range(16):
+        report = core.Report(pid)
+        if attempt == 0:
+            mod = importlib.import_module(modname)
+        else:
+            mod = types.ModuleType(modname)
+            mod.__dict__.update({'__package__': 'sa.props', '__file__': path, '__name__': modname})
+            exec(compile(tree, path, 'exec'), mod.__dict__)
+        try:
+            mod.run(ctx, report)
+            break
+        except (core.AnalysisError, NameError, UnboundLocalError) as e:
+            if isinstance(e, (NameError, UnboundLocalError)) and attempt == 0:
+                raise
+            # the top-level statement of run() in which the error surfaced
+            tb = e.__traceback__
+            line = None
+            while tb is not None:
+                if tb.tb_frame.f_code.co_filename == path and tb.tb_frame.f_code.co_name == 'run':
+                    line = tb.tb_lineno
+                tb = tb.tb_next
+            body = run_fn.body
+            k = next((i for i, st in enumerate(body) if line is not None and st.lineno <= line <= getattr(st, 'end_lineno', st.lineno)), None)
+            if k is None:
+                raise
+            starts = [i for i, st in enumerate(body) if _rule_statement(st)]
+            s_ = max((i for i in starts if i <= k), default=None)
+            if s_ is None or s_ == k:
+                raise                      # before the first rule / in the rule statement itself: nothing to leave out
+            e_ = min((i for i in starts if i > k), default=len(body))
+            var = _rule_statement(body[s_])
+            rid = None
+            try:
+                rid = ast.literal_eval(body[s_].value.args[0])
+            except Exception:  # noqa: BLE001
+                rid = var
+            reason = f'{type(e).__name__}: {e}'
+            skipped.append((str(rid), reason))
+            note = ast.parse(f'{var}.floor = None\n{var}.note({("not evaluated on this tree: " + reason)!r})').body
+            for n_ in note:
+                ast.copy_location(n_, body[s_])
+                ast.fix_missing_locations(n_)
+            run_fn.body = body[:s_ + 1] + note + body[e_:]
+    else:
+        raise core.AnalysisError(f'more than 15 rules of {pid} cannot be evaluated on this tree: ' + '; '.join(f'{a}: {b}' for a, b in skipped[:4]))
+    if skipped:
+        live = [r for r in report.rules if r.instances and r.rid not in {a for a, _ in skipped}]
+        if not live:
+            raise core.AnalysisError(f'no rule of {pid} can be evaluated on this tree: ' + '; '.join(f'{a}: {b}' for a, b in skipped[:4]))
+        report.extra['skipped_rules'] = [{'rule': a, 'reason': b} for a, b in skipped]
+        for a, b in skipped:
+            print(f'SKIPPED-RULE property={pid} rule={a} reason={b[:300]}')
     for r in report.rules:
         r.check_floor()
     return report
